@@ -152,6 +152,32 @@ Theorem C09_publish_q0_on_wire : forall fuel r w w',
     w_wire w' = w_wire w ++ owed (s_ob (w_sess w)) ++ bs.
 Proof. exact op_publish_q0_wire. Qed.
 
+From Minimq Require Import Pings.
+
+(* ---- and on EVERY transport, with no assumption on the timers or on the time the writes take (`ins X Y`: Y is X, or X with
+   one PINGREQ inserted - a PINGREQ that fell due while the operation was draining) ---- *)
+Theorem C09_publish_on_wire_every_transport : forall fuel r w w' op,
+  WInv (w_sess w) -> op_publish fuel r w = (w', ODone (Some op)) ->
+  exists w1 bs cap off Y,
+    flush_outbound fuel w = (w1, ODone tt) /\
+    enc_publish cap (pub_request r (effective_qos (w_sess w1) (pr_qos r)) (op_pid op)) = SOk off bs /\
+    ins (owed (s_ob (w_sess w)) ++ bs) Y /\ w_wire w' = w_wire w ++ Y /\ next_step (s_ob (w_sess w')) = None.
+Proof. exact op_publish_wire_every_transport. Qed.
+
+Theorem C09_subscribe_on_wire_every_transport : forall fuel topics ps w w' op,
+  WInv (w_sess w) -> op_subscribe fuel topics ps w = (w', ODone (Some op)) ->
+  exists bs cap off Y,
+    enc_subscribe cap {| sq_pid := op_pid op; sq_props := ps; sq_topics := topics |} = SOk off bs /\
+    ins (owed (s_ob (w_sess w)) ++ bs) Y /\ w_wire w' = w_wire w ++ Y /\ next_step (s_ob (w_sess w')) = None.
+Proof. exact op_subscribe_wire_every_transport. Qed.
+
+Theorem C09_unsubscribe_on_wire_every_transport : forall fuel topics ps w w' op,
+  WInv (w_sess w) -> op_unsubscribe fuel topics ps w = (w', ODone (Some op)) ->
+  exists bs cap off Y,
+    enc_unsubscribe cap {| uq_pid := op_pid op; uq_props := ps; uq_topics := topics |} = SOk off bs /\
+    ins (owed (s_ob (w_sess w)) ++ bs) Y /\ w_wire w' = w_wire w ++ Y /\ next_step (s_ob (w_sess w')) = None.
+Proof. exact op_unsubscribe_wire_every_transport. Qed.
+
 Print Assumptions C09_property_size.
 Print Assumptions C09_block_size.
 Print Assumptions C09_varint_length.
@@ -174,3 +200,6 @@ Print Assumptions C09_subscribe_on_wire.
 Print Assumptions C09_unsubscribe_on_wire.
 Print Assumptions C09_publish_on_wire_example.
 Print Assumptions C09_publish_q0_on_wire.
+Print Assumptions C09_publish_on_wire_every_transport.
+Print Assumptions C09_subscribe_on_wire_every_transport.
+Print Assumptions C09_unsubscribe_on_wire_every_transport.
